@@ -66,6 +66,10 @@ def c07(case, out):
             # history: a preimage query on the same object before the image query (C07 holds for every history)
             yq = np.array([lo[i] + (0.1 + 0.8 * ((qi * 7 + i * 3) % 10) / 10.0) * (up[i] - lo[i]) for i in range(N)])
             (ev.GetInverseImage if qi % 2 else ev.GetPreimages)(yq)
+        if qi % 7 == 3:
+            # history: "where does the curve pass the corners of the box?" asked with the object's own bound arrays
+            ev.GetPreimages(ev.lowerBoundOfFloatVariables)
+            ev.GetInverseImage(ev.upperBoundOfFloatVariables)
         y = ev.GetImage(x)
         n += 1
         inbox = all(lo[i] - TOL * (up[i] - lo[i]) <= y[i] <= up[i] + TOL * (up[i] - lo[i]) for i in range(N))
